@@ -96,7 +96,8 @@ func randCigar(r *RNG, ref, template string, start, span int, o cigarOpts) (stri
 			p += n
 			lastWasI = false
 		case k < 18: // I (adjacent to D allowed; two I in a row are not produced)
-			if nins < o.maxIns && !lastWasI && !(o.noTrailIn && first) {
+			// a leading insertion is kept out of non-first records of a query; before reference base 1 (ins:0:n) it is allowed
+			if nins < o.maxIns && !lastWasI && !(o.noTrailIn && first && start != 0) {
 				n := r.Range(1, 3)
 				fmt.Fprintf(&cig, "%dI", n)
 				seq.WriteString(randSeq(r, n, symACGT, false))
@@ -145,6 +146,9 @@ type samCase struct {
 }
 
 // genSam: disjoint=true gives every query non-overlapping records (toPairAlign's precondition)
+// set by a generator around a call of genSam: the last query is named like the reference record
+var genSamRefNamedQuery bool
+
 func genSam(r *RNG, disjoint bool, maxIns int) samCase {
 	L := r.Range(10, 120)
 	ref := randSeq(r, L, symACGT, false)
@@ -152,6 +156,10 @@ func genSam(r *RNG, disjoint bool, maxIns int) samCase {
 	nq := r.Range(1, 6)
 	for qi := 0; qi < nq; qi++ {
 		name := fmt.Sprintf("q%d", qi)
+		if genSamRefNamedQuery && qi == nq-1 && nq > 1 {
+			name = sc.rname // a read that carries the reference's own name (the reference aligned with the samples)
+			sc.tags["read-named-like-reference"] = true
+		}
 		// the query's genome in reference coordinates
 		tmpl := mutateSeq(r, ref, symACGT, 1, 8, false)
 		if r.Chance(1, 4) {
@@ -165,6 +173,9 @@ func genSam(r *RNG, disjoint bool, maxIns int) samCase {
 		if disjoint || r.Bool() {
 			// consecutive disjoint reference intervals
 			cursor := r.Range(0, L/3)
+			if r.Chance(1, 4) {
+				cursor = 0 // alignments that start at reference base 1
+			}
 			for k := 0; k < nrec && cursor < L; k++ {
 				span := r.Range(1, L-cursor)
 				if nrec > 1 && span > (L-cursor)/2+1 {
